@@ -141,16 +141,22 @@ func (w *c15World) setupV1(nVaults int) {
 	for _, asset := range []uint64{3, 2} {
 		w.must(w.deliver(&tokenminttypes.MsgMintNewTokensRequest{From: gov, AppId: 1, AssetId: asset}), "tokenmint")
 	}
-	for i := 0; i < nVaults; i++ {
-		u := w.addr[i%len(w.addr)]
-		_ = u
-	}
+	w.setupCollector(1, 2, 3, true)
 	for i := 0; i < nVaults; i++ {
 		u := w.addr[1+i]
-		w.fund(u, "ucmdx", 100000000)
+		w.fund(u, "ucmdx", 1000000000)
 		w.must(w.deliver(&vaulttypes.MsgCreateRequest{From: u.String(), AppId: 1, ExtendedPairVaultId: 1,
-			AmountIn: sdk.NewInt(int64(1000000 + 1000*i)), AmountOut: sdk.NewInt(1000000)}), "vault create")
+			AmountIn: sdk.NewInt(int64(10000000 + 1000*i)), AmountOut: sdk.NewInt(10000000)}), "vault create")
 	}
+}
+
+// collector lookup table and auction control for (app, asset): surplus and debt auctions can be kicked off
+func (w *c15World) setupCollector(appID, asset, secondary uint64, debt bool) {
+	w.must(w.app.CollectorKeeper.WasmSetCollectorLookupTable(w.ctx, &bindings.MsgSetCollectorLookupTable{AppID: appID, CollectorAssetID: asset,
+		SecondaryAssetID: secondary, SurplusThreshold: sdk.NewInt(10000000), DebtThreshold: sdk.NewInt(5000000), LockerSavingRate: c15Dec("0.1"),
+		LotSize: sdk.NewInt(200000), BidFactor: c15Dec("0.01"), DebtLotSize: sdk.NewInt(2000000)}), "collector lookup")
+	w.must(w.app.CollectorKeeper.WasmSetAuctionMappingForApp(w.ctx, &bindings.MsgSetAuctionMappingForApp{AppID: appID, AssetIDs: asset,
+		IsSurplusAuctions: !debt, IsDebtAuctions: debt, IsDistributor: false, AssetOutOraclePrices: false, AssetOutPrices: 1000000}), "auction mapping")
 }
 
 // triggerESM: the governance-token holders deposit the target and execute the emergency shutdown of app 1.
@@ -258,6 +264,9 @@ func (w *c15World) setupV2(nVaults, nBorrows int) {
 		DutchAuctionParam: &dutch, IsEnglishActivated: false, KeeeperIncentive: c15Dec("0.1")})
 	w.app.NewaucKeeper.SetAuctionParams(w.ctx, aucv2types.AuctionParams{AuctionDurationSeconds: 3600, Step: c15Dec("0.1"), WithdrawalFee: c15Dec("0.0"),
 		ClosingFee: c15Dec("0.0"), MinUsdValueLeft: 100000, BidFactor: c15Dec("0.1"), LiquidationPenalty: c15Dec("0.1"), AuctionBonus: c15Dec("0.0")})
+	w.setupCollector(2, a3, a4, false)
+	w.must(w.app.LendKeeper.AddAuctionParamsData(w.ctx, lendtypes.AuctionParams{AppId: 3, AuctionDurationSeconds: 21600, Buffer: c15Dec("1.2"),
+		Cusp: c15Dec("0.7"), Step: sdk.NewInt(360), PriceFunctionType: 1, DutchId: 3, BidDurationSeconds: 3600}), "lend auction params")
 	for i := 0; i < nVaults; i++ {
 		u := w.addr[1+i]
 		w.fund(u, "uasset2", 100000000)
